@@ -476,6 +476,15 @@ def rule_ambiguity_guard(ctx, idx, mir, T, rid="R03.3"):
                 r.violate(key, f"AmbiguityGuard::track_end_tag in {s} on </{lc(t)}>: goes to {nxt}; reference: {ref_end(s, t)} (the guard would forget that it is still inside <select>/<template>)", "src/parser/tree_builder_simulator/ambiguity_guard.rs")
     # positive control: a wrong reference must be noticed
     r.control(ref_end(("State::InTemplateInSelect", 1), "Template") != "State::Default", "reference distinguishes InSelect from Default after </template>")
+    clause_strict_gates_guard(r, mir)
+    ctor = sorted(set(f.key for f in mir.fns if not mir.is_test_fn(f) for b in f.blocks for st in b["stmts"] if st["k"] == "assign" and st["rv"]["k"] == "agg" and st["rv"]["name"].endswith("ParsingAmbiguityError")))
+    r.inst("error|constructors", sample={"constructors": ctor})
+    if ctor != ["parser::tree_builder_simulator::ambiguity_guard::assert_not_ambiguous_text_type_switch"]:
+        r.violate("error|constructors", f"ParsingAmbiguityError is constructed in {ctor}; strict mode must fail only through the ambiguity guard", None)
+
+
+
+def clause_strict_gates_guard(r, mir):
     # strict flag: read only as the guard of the two track calls
     readers = sorted(set(f.key for f in mir.fns if not mir.is_test_fn(f) and "TreeBuilderSimulator.strict" in sm.fields_read(f)))
     r.inst("strict|readers", sample={"readers": readers})
@@ -500,8 +509,3 @@ def rule_ambiguity_guard(ctx, idx, mir, T, rid="R03.3"):
         others = [bi for bi, t in f.calls() if bi != tc[0] and not re.search(r"branch|from_residual", callee_key(t))]
         if any(f.dominates(true_t, o) and not f.dominates(false_t, o) and o not in f.reachable_blocks(false_t) for o in others):
             r.violate(nm + "|strict-only-work", f"{nm}: work other than the guard happens only in strict mode", f.loc())
-    ctor = sorted(set(f.key for f in mir.fns if not mir.is_test_fn(f) for b in f.blocks for st in b["stmts"] if st["k"] == "assign" and st["rv"]["k"] == "agg" and st["rv"]["name"].endswith("ParsingAmbiguityError")))
-    r.inst("error|constructors", sample={"constructors": ctor})
-    if ctor != ["parser::tree_builder_simulator::ambiguity_guard::assert_not_ambiguous_text_type_switch"]:
-        r.violate("error|constructors", f"ParsingAmbiguityError is constructed in {ctor}; strict mode must fail only through the ambiguity guard", None)
-
